@@ -17,6 +17,11 @@
     * `.app s`     one complete `append_string(s)` (atomic now)
     * `.ccancel`   the `load()` call in progress is cancelled / `aclose()`d (`finally:` removes its
                    event); the loader thread keeps running; a later `.cstart` is a new `load()` call
+    * `.lcall`     the call `iter(inner.load_history_strings())` as a step of its own — only in the
+                   variant `hoist = true` (the call in front of the lock); TWO kinds of inner history:
+                   `eager` (reads its storage when called: FileHistory) and lazy (when its first item
+                   is requested: a generator).  In the code as it is (`hoist = false`) call, list reset
+                   and first item are one locked block = the one step `.lreset`, for both kinds.
     * `.lfail`     the inner history raises (in `load_history_strings()` itself, or when the next
                    item is requested): the rest of its items is lost, `finally:` still sets `_loaded`
   One `load()` call at a time (any number of them one after the other); several simultaneous calls
@@ -38,7 +43,7 @@ structure THF where
   storage : List Text       -- the inner history's persistent store, oldest first
   strs : List Text          -- `_loaded_strings`
   loaded : Bool             -- `_loaded`
-  lpc : LPc                 -- (`.called` is never used: reset + snapshot are one step)
+  lpc : LPc                 -- (`.called`: only when the call of the inner history is outside the lock)
   remaining : List Text     -- items of the inner generator's snapshot not yet produced
   inserted : Nat            -- `_appended_count`
   ev : Bool                 -- the consumer's `threading.Event` (while registered)
@@ -53,21 +58,29 @@ structure THF where
   complete : Bool           -- the last `load()` call ran to its end (was not cancelled)
   hist0 : List Text         -- the logical history (newest first) when the current `load()` call began
   front : List Text         -- the entries appended since then, as of the last locked read (newest first)
+  -- configuration (never changes)
+  eager : Bool := false     -- kind of inner history: `true` = it reads its storage when
+                            -- `load_history_strings()` is CALLED (FileHistory: an ordinary function that
+                            -- returns `reversed(strings)`), `false` = when its first item is requested
+                            -- (a generator: InMemoryHistory, the documented way to write a backend)
+  hoist : Bool := false     -- `false` = the code as it is: the call `iter(inner.load_history_strings())`
+                            -- stands inside the locked block; `true` = the call stands in front of
+                            -- `with self._lock:` (the list reset and the first item stay inside)
 deriving Repr, DecidableEq
 
 inductive StepF
   | cstart | cwait | cread | cyield | ccancel
-  | lreset | lappend | lnotify | ldone | lfinal | lfail
+  | lcall | lreset | lappend | lnotify | ldone | lfinal | lfail
   | app (s : Text)
 deriving Repr, DecidableEq
 
 /-- `ThreadedHistory(inner)` where the inner store holds `old`, followed by `append_string(p)`
     for every `p` in `pre` (before any `load()`). -/
-def THF.init (old pre : List Text) : THF :=
+def THF.init (old pre : List Text) (eager : Bool := false) (hoist : Bool := false) : THF :=
   { storage := old ++ pre, strs := pre.reverse, loaded := false, lpc := .notStarted,
     remaining := [], inserted := pre.length, ev := false, cpc := .idle, yielded := 0, seen := 0,
     out := [], batch := [], sawDone := false, failed := false, complete := false, hist0 := [],
-    front := [] }
+    front := [], eager := eager, hoist := hoist }
 
 /-- the logical history, newest first -/
 def THF.view (st : THF) : List Text := st.storage.reverse
@@ -115,10 +128,24 @@ def stepF (st : THF) : StepF → THF
     if st.cpc = .waiting ∨ st.cpc = .reading ∨ st.cpc = .yielding then
       { st with cpc := .done, ev := false, batch := [], complete := false }
     else st
+  | .lcall =>
+    -- only when the call stands in front of the lock: `strings = iter(inner.load_history_strings())`
+    -- as a step of its own; an eager inner history reads its storage HERE
+    if st.hoist ∧ st.lpc = .started then
+      { st with lpc := .called, remaining := if st.eager then st.storage.reverse else st.remaining }
+    else st
   | .lreset =>
+    -- the code as it is:
     -- `with lock: _loaded_strings = []; strings = iter(inner.load_history_strings());
     --             first = list(islice(strings, 1))`
-    if st.lpc = .started then { st with strs := [], remaining := st.storage.reverse, lpc := .iter }
+    -- (the storage is read at the call or at the first item: the same moment either way);
+    -- with the call in front of the lock: `with lock: _loaded_strings = []; first = …` — a lazy inner
+    -- history reads its storage now, an eager one has read it at `.lcall`
+    if st.lpc = .started ∧ st.hoist = false then
+      { st with strs := [], remaining := st.storage.reverse, lpc := .iter }
+    else if st.lpc = .called then
+      { st with strs := [], remaining := if st.eager then st.remaining else st.storage.reverse,
+                lpc := .iter }
     else st
   | .lappend =>
     if st.lpc = .iter then
@@ -136,7 +163,10 @@ def stepF (st : THF) : StepF → THF
   | .lfail =>
     -- the inner history raises: inside the first locked block (the list has been emptied
     -- already), or when a further item is requested; `finally:` is the `.ldone` step
+    -- (with the call in front of the lock a raise in the call skips the list reset)
     if st.lpc = .started then
+      { st with strs := if st.hoist then st.strs else [], remaining := [], lpc := .iter, failed := true }
+    else if st.lpc = .called then
       { st with strs := [], remaining := [], lpc := .iter, failed := true }
     else if st.lpc = .iter ∧ st.remaining ≠ [] then
       { st with remaining := [], failed := true }
@@ -185,23 +215,26 @@ structure THm where
   storage : List Text
   strs : List Text
   loaded : Bool
-  lpc : NPc                 -- (`.called` is never used)
+  lpc : NPc                 -- (`.called`: only when the call of the inner history is outside the lock)
   remaining : List Text
   inserted : Nat
   failed : Bool             -- ghost
   cons : Nat → ConsM
   events : List Nat         -- `_string_load_events`: the registered `load()` calls, in order
   ncopy : List Nat          -- rest of the copied list the notify loop still has to go through
+  eager : Bool := false     -- configuration, as in `THF`
+  hoist : Bool := false
 
 inductive StepM
   | cstart (i : Nat) | cwait (i : Nat) | cread (i : Nat) | cyield (i : Nat) | ccancel (i : Nat)
-  | lreset | lappend | lnotify | lset | ldone | lfinal | lfail
+  | lcall | lreset | lappend | lnotify | lset | ldone | lfinal | lfail
   | app (s : Text)
 deriving Repr, DecidableEq
 
-def THm.init (old pre : List Text) : THm :=
+def THm.init (old pre : List Text) (eager : Bool := false) (hoist : Bool := false) : THm :=
   { storage := old ++ pre, strs := pre.reverse, loaded := false, lpc := .notStarted, remaining := [],
-    inserted := pre.length, failed := false, cons := fun _ => {}, events := [], ncopy := [] }
+    inserted := pre.length, failed := false, cons := fun _ => {}, events := [], ncopy := [],
+    eager := eager, hoist := hoist }
 
 def THm.view (st : THm) : List Text := st.storage.reverse
 
@@ -254,8 +287,16 @@ def stepM (st : THm) : StepM → THm
       { st.setCons i { c with cpc := .done, ev := false, batch := [], complete := false } with
         events := st.events.erase i }
     else st
+  | .lcall =>
+    if st.hoist ∧ st.lpc = .started then
+      { st with lpc := .called, remaining := if st.eager then st.storage.reverse else st.remaining }
+    else st
   | .lreset =>
-    if st.lpc = .started then { st with strs := [], remaining := st.storage.reverse, lpc := .iter }
+    if st.lpc = .started ∧ st.hoist = false then
+      { st with strs := [], remaining := st.storage.reverse, lpc := .iter }
+    else if st.lpc = .called then
+      { st with strs := [], remaining := if st.eager then st.remaining else st.storage.reverse,
+                lpc := .iter }
     else st
   | .lappend =>
     if st.lpc = .iter then
@@ -276,6 +317,8 @@ def stepM (st : THm) : StepM → THm
     else st
   | .lfail =>
     if st.lpc = .started then
+      { st with strs := if st.hoist then st.strs else [], remaining := [], lpc := .iter, failed := true }
+    else if st.lpc = .called then
       { st with strs := [], remaining := [], lpc := .iter, failed := true }
     else if st.lpc = .iter ∧ st.remaining ≠ [] then
       { st with remaining := [], failed := true }
